@@ -690,12 +690,12 @@ Proof.
     destruct L as [Ll Ln Lj Lo (cs & m & Hq & Hcs & Hal & Hf) Lr Lb Ld]. rewrite M in *. simpl in Hal.
     assert (Hm0 : m = 0) by (pose proof (alive_le (ms_procs s)); lia). subst m. simpl in Hq. rewrite app_nil_r in Hq.
     constructor; unfold new_ok, joined_ok; simpl; auto; try discriminate.
-    + exists (cs ++ [QChunk i (firstn (ms_chunk s) (x :: r))]), 0. simpl. rewrite app_nil_r, Hq. repeat split; auto.
-      * apply Forall_app. split; auto. constructor; [exact Logic.I | constructor].
-      * intros _. apply alive_full. lia.
+    exists (cs ++ [QChunk i (firstn (ms_chunk s) (x :: r))]), 0. simpl. rewrite app_nil_r, Hq. split; [reflexivity|]. split.
+    { apply Forall_app; split; auto; repeat constructor. }
+    split; [exact Hal|]. intros _. apply alive_full. lia.
   - (* MTry *)
     destruct (ms_main s) eqn:M; try discriminate. destruct (ms_resq s) as [|[i0 xs|] q] eqn:Q; try discriminate. injection H as <-.
-    apply absorb_live; auto; try (rewrite M; reflexivity || discriminate). apply (mi_err _ _ _ MI). intros k; rewrite M; discriminate.
+    apply absorb_live; auto; try (rewrite M; reflexivity); try (apply (mi_err _ _ _ MI)); try (intros k0; rewrite M; discriminate).
   - (* MEmpty *)
     destruct (ms_main s) as [| | |i rest| | | |] eqn:M; try discriminate. injection H as <-.
     assert (Len : length (ms_procs s) = m_workers cfg) by (apply mlive_len; auto; rewrite M; discriminate).
@@ -709,7 +709,7 @@ Proof.
   - (* MGet *)
     destruct (ms_main s) eqn:M; try discriminate. destruct (ms_resq s) as [|[i0 xs|] q] eqn:Q; try discriminate.
     destruct (ms_finished s <? ms_cnt s); try discriminate. injection H as <-.
-    apply absorb_live; auto; try (rewrite M; reflexivity || discriminate). apply (mi_err _ _ _ MI). intros k; rewrite M; discriminate.
+    apply absorb_live; auto; try (rewrite M; reflexivity); try (apply (mi_err _ _ _ MI)); try (intros k0; rewrite M; discriminate).
   - (* MEnd *)
     destruct (ms_main s) eqn:M; try discriminate. destruct (ms_finished s <? ms_cnt s); try discriminate.
     assert (Len : length (ms_procs s) = m_workers cfg) by (apply mlive_len; auto; rewrite M; discriminate).
@@ -755,9 +755,8 @@ Proof.
         -- rewrite M. reflexivity.
         -- unfold joined_ok. intros _. exact All.
       * destruct L as [Ll Ln Lj Lo (cs & m & Hq & Hcs & Hal & Hf) Lr Lb Ld]. rewrite M in *. unfold new_ok, joined_ok in *.
-        constructor; unfold new_ok, joined_ok; simpl; auto; try discriminate.
-        -- exists cs, m. simpl in *. rewrite K. auto.
-        -- intros K'. congruence.
+        constructor; unfold new_ok, joined_ok; simpl; auto; try discriminate;
+          first [ solve [exists cs, m; simpl in *; rewrite K; auto] | solve [intros K'; congruence] ].
   - (* MWTake *)
     destruct (nth_error (ms_procs s) k) as [[| | |]|] eqn:N; try discriminate.
     destruct L as [Ll Ln Lj Lo (cs & m & Hq & Hcs & Hal & Hf) Lr Lb Ld].
@@ -766,26 +765,40 @@ Proof.
     destruct (ms_workq s) as [|[i0 xs|] q] eqn:Q; try discriminate; injection H as <-.
     + destruct (chunks_head _ _ _ _ _ (eq_sym Hq)) as (cs' & -> & ->).
       pose proof (alive_set_nth _ k MWIdle (MWHold i0 xs) N) as Al. unfold alive1 in Al; simpl in Al.
-      constructor; simpl; rewrite ?set_nth_length; auto.
+      constructor; simpl.
+      * apply Ll'.
       * apply new_set_nth with (w := MWIdle); auto; discriminate.
-      * exists cs', m. repeat split; auto; [inversion Hcs; auto | lia |].
-        intros _ j w Hj. apply nth_set_nth_cases in Hj. destruct Hj as [[-> ->]|[Hne Hj]]; [reflexivity|]. apply (Hf ltac:(discriminate) j w Hj).
+      * rewrite set_nth_length. exact Lj.
+      * exact Lo.
+      * exists cs', m. split; [reflexivity|]. split; [inversion Hcs; auto|]. split; [lia|].
+        intros _ j w Hj. apply nth_set_nth_cases in Hj. destruct Hj as [[-> ->]|[Hne Hj]]; [reflexivity|].
+        apply (Hf ltac:(discriminate) j w Hj).
+      * exact Lr.
+      * exact Lb.
       * apply joined_set_nth with (w := MWIdle); auto. left; discriminate.
     + destruct (nones_head _ _ _ Hcs (eq_sym Hq)) as (-> & m' & -> & ->).
       pose proof (alive_set_nth _ k MWIdle MWDead N) as Al. unfold alive1 in Al; simpl in Al.
-      constructor; simpl; rewrite ?set_nth_length; auto.
+      constructor; simpl.
+      * apply Ll'.
       * apply new_set_nth with (w := MWIdle); auto; discriminate.
-      * exists [], m'. simpl. repeat split; auto; [lia | contradiction].
+      * rewrite set_nth_length. exact Lj.
+      * exact Lo.
+      * exists [], m'. simpl. split; [reflexivity|]. split; [constructor|]. split; [lia|]. contradiction.
+      * exact Lr.
+      * exact Lb.
       * apply joined_set_nth with (w := MWIdle); auto.
   - (* MWRes *)
     destruct (nth_error (ms_procs s) k) as [[| |i0 xs|]|] eqn:N; try discriminate. injection H as <-.
     destruct L as [Ll Ln Lj Lo (cs & m & Hq & Hcs & Hal & Hf) Lr Lb Ld].
     pose proof (alive_set_nth _ k (MWHold i0 xs) MWIdle N) as Al. unfold alive1 in Al; simpl in Al.
-    constructor; simpl; rewrite ?set_nth_length; auto.
-    + destruct Ll as [?|(_ & P & _)]; [left; assumption | rewrite P in N; destruct k; discriminate].
+    constructor; simpl.
+    + rewrite set_nth_length. destruct Ll as [?|(_ & P & _)]; [left; assumption | rewrite P in N; destruct k; discriminate].
     + apply new_set_nth with (w := MWHold i0 xs); auto; discriminate.
-    + exists cs, m. repeat split; auto; [lia|].
+    + rewrite set_nth_length. exact Lj.
+    + exact Lo.
+    + exists cs, m. split; [exact Hq|]. split; [exact Hcs|]. split; [lia|].
       intros Hc j w Hj. apply nth_set_nth_cases in Hj. destruct Hj as [[-> ->]|[Hne Hj]]; [reflexivity|]. apply (Hf Hc j w Hj).
-    + apply Forall_app. split; auto. constructor; [exact Logic.I | constructor].
+    + apply Forall_app; split; auto; repeat constructor.
+    + exact Lb.
     + apply joined_set_nth with (w := MWHold i0 xs); auto. left; discriminate.
 Qed.
